@@ -23,7 +23,7 @@ func init() {
 			"window-fill family: streams whose literals, packed literal+length entries and copies straddle the point where the decoder's 64 KiB output window is full, delivered bytewise (plain and through a 16-byte bufio) and in EVERY two-piece split within [-8,+72) bytes of that point; " +
 			"oracle: output bytes and final error identical to the all-at-once run; non-trivial = the run differs from the all-at-once run in at least one environment dimension",
 		Assumptions: []string{"the all-at-once run (plain source delivering everything in one call, one large Read) is the reference"},
-		Quick:       TierSpec{MaxDev: 1, Shards: 4, ShardDepth: 3, BudgetS: 200},
+		Quick:       TierSpec{MaxDev: 1, Shards: 4, ShardDepth: 3, BudgetS: 600},
 		Thorough:    TierSpec{MaxDev: 2, Shards: 8, ShardDepth: 3, BudgetS: 2400},
 		Harness:     c04Harness,
 	})
